@@ -1472,7 +1472,6 @@ class Gen:
     # ---- whole program --------------------------------------------------------
     def build_flow(self, scope, n_knots, n_fns, n_tunnels):
         f = self.f
-        self.fn_knots_start = len(self.prog.knots)
         fn_knots_before = list(self.prog.knots)
         self.prog.knots = []
         if f["functions"]:
@@ -1482,8 +1481,8 @@ class Gen:
                                          (0.7, "recursive")]))
             if f["observers"]:
                 kinds = ["impure"] + kinds
-            if f["fn_heavy"]:
-                kinds[:4] = ["value", "print", "impure", "recursive"][:len(kinds[:4])] if len(kinds) >= 4 else kinds
+            if f["fn_heavy"] and len(kinds) >= 4:
+                kinds[:4] = ["value", "print", "impure", "recursive"]
             for k in kinds:
                 self.make_function(scope, k)
         fn_knots = self.prog.knots
@@ -1559,9 +1558,11 @@ class Gen:
             "globals": list(self.globals),
             "knots": knots,
             "stitches": stitches,
-            "functions": [{"name": fn.name, "arity": len(fn.ptypes), "pure": fn.pure, "prints": fn.prints}
+            "functions": [{"name": fn.name, "arity": len(fn.ptypes), "pure": fn.pure, "prints": fn.prints,
+                           "ptypes": list(fn.ptypes)}
                           for fn in self.all_fns],
-            "externals": [{"name": fn.name, "arity": len(fn.ptypes), "has_fallback": fn.has_fallback}
+            "externals": [{"name": fn.name, "arity": len(fn.ptypes), "has_fallback": fn.has_fallback,
+                           "ptypes": list(fn.ptypes)}
                           for fn in self.all_exts],
             "flows": list(self.flow_entries),
             # for each flow entry: every knot / function and every global that flow may touch
